@@ -127,6 +127,9 @@ Covers32(d, e) ==
          ELSE {<<"eq", n>> : n \in {n \in AlwaysLaws \cup UndoLaws(e) : e.eq[n][1] = 0 /\ e.eq[n][2] = 1}}
     [] d = "rgb_channels_rounded" ->
          IfSet(~CertainlyInteger(e), {<<"eq", "ch_rgb">>})
+    [] d = "channel_float_above_range" ->
+         (* saturation(c) can be 100.00000000000003% (printed 100%); color.change rejects it as out of range *)
+         IfSet(e.eq.ch_hsl[1] = -2 /\ e.obs.s = PC, {<<"eq", "ch_hsl">>})
     [] d = "hsl_of_red_eq_green" ->
          (* every function that goes through the hsl form of such a colour works on black instead *)
          IfSet(YellowBug(e), {<<"eq", n>> : n \in AlwaysLaws \cup UndoLaws(e)} \cup {<<"mv", n>> : n \in MoveNames})
@@ -144,9 +147,17 @@ Fails33(e) ==
        IF D.ok = 0 THEN {<<"c33", "notation">>}
        ELSE IF D.ok = 2 THEN {}
        ELSE IF {"h", "w", "k", "a"} \cap RangeFails(o) # {} THEN {}    \* no reference colour (C31's business)
-       ELSE LET ref == HwbToRgb(o.h, o.w, o.k) IN
+       ELSE LET ref == HwbToRgb(o.h, o.w, o.k)
+                (* the reference colour rebuilt from hue/whiteness/blackness is used only when it agrees    *)
+                (* with the (rounded) red/green/blue read-backs; if rsass's channel functions contradict   *)
+                (* each other that is C31's business and only the rounded channels are compared            *)
+                (* (e.g. saturation 0% for a colour whose whiteness + blackness is below 100%), or if the    *)
+                (* colour is outside the hsl gamut (saturation / lightness read-back out of range, C31)       *)
+                refOk == /\ \A n \in {"r", "g", "b"} : Near(ref[n], o[n], 500 + RefTol)
+                         /\ {"s", "l"} \cap RangeFails(o) = {}
+                         /\ (o.s = 0 => o.w + o.k >= PC - 2) IN
             IfSet(~Near(D.a, o.a, 2), {<<"c33", "alpha">>})
-            \cup {<<"c33", n>> : n \in {n \in {"r", "g", "b"} : ~Near(D[n], ref[n], Tol33) \/ ~Near(D[n], o[n], 500 + Tol33)}}
+            \cup {<<"c33", n>> : n \in {n \in {"r", "g", "b"} : (refOk /\ ~Near(D[n], ref[n], Tol33)) \/ ~Near(D[n], o[n], 500 + Tol33)}}
 
 Covers33(d, e) == {}
 
